@@ -94,7 +94,7 @@ def expectations(settings):
     display_align: 'before' | 'center' | 'after' | None (abstain)
     edge         : None, or (which, value %, tolerance): the region's block-direction edge that WebVTT pins for a
                    percentage line on a horizontal cue: 'top' (line align start), 'middle' (center), 'bottom' (end);
-                   also for the line numbers 0 (top at 0 %) and -1 (bottom at 100 %) without explicit line alignment
+                   also for the line numbers 0 (top at 0 %) and -1 (bottom at 100 %), with or without a line alignment
   """
   d = parse(settings)
   e = {"writing_mode": {None: "lrtb", "rl": "tbrl", "lr": "tblr"}[d["vertical"]]}
@@ -112,7 +112,8 @@ def expectations(settings):
     if d["vertical"] is None:
       tol = F(1, 1000000) if d["line"].denominator == 1 else F(1, 2) + F(1, 1000000)
       e["edge"] = ({"start": "top", "center": "middle", "end": "bottom"}[la], d["line"], tol)
-  elif d["vertical"] is None and d["line_align"] is None:
+  elif d["vertical"] is None:
+    # (an explicit line alignment is not used when snapping to lines: same facts as without it)
     # line number, snap-to-lines (7.2 'adjust the positions of boxes'): position = step * line, plus the full height and
     # growing upwards when line < 0.  Whatever the line height: line 0 puts the top of the cue at 0 % and line -1 puts
     # the bottom of its first line at 100 %.  Other numbers depend on the line height (abstain).
